@@ -235,6 +235,7 @@ class Ctx:
         self.fed = {}       # id(node) -> max number of stacks fed at once
         self.feeds = {}     # id(node) -> total number of stacks fed
         self.varied = set() # id(node) of nodes that yielded != 1 times for some input
+        self.word_unordered = False
 
     def soft(self, what):
         if self.lazy:
@@ -290,6 +291,20 @@ dup over swap rot drop apply true false T_CONST T_STR T_SEQ T_CLOSURE
 
 # --------------------------------------------------- static scope checking
 
+_ERRORS = None
+
+
+def all_scope_errors(node):
+    """Every (kind, name) scope error of NODE, in a fixed traversal order."""
+    global _ERRORS
+    _ERRORS = []
+    try:
+        _scopes(node, [set()])
+        return list(_ERRORS)
+    finally:
+        _ERRORS = None
+
+
 def check_scopes(node, bound_chain=None):
     """Raise CompileError for unbound reads / rebinding, per syntax.rst.
 
@@ -302,6 +317,9 @@ def check_scopes(node, bound_chain=None):
 
 def _bind(chain, name):
     if name in chain[-1]:
+        if _ERRORS is not None:
+            _ERRORS.append(("rebound", name))
+            return
         raise CompileError("rebound", name)
     chain[-1].add(name)
 
@@ -323,6 +341,9 @@ def _scopes(node, chain):
         if any(name in s for s in chain):
             return
         if name in BUILTIN_NAMES:
+            return
+        if _ERRORS is not None:
+            _ERRORS.append(("unbound", name))
             return
         raise CompileError("unbound", name)
     if k == "str":
@@ -830,7 +851,10 @@ def ev_word(node, items, ctx):
             ordered = ordered and r.ordered
             out.extend(r.items)
             continue
+        ctx.word_unordered = False
         r = word1(name, stk, env, ctx)
+        if ctx.word_unordered:
+            ordered = False
         out.extend((s, env) for s in r)
     return Stream(out, ordered)
 
@@ -968,6 +992,8 @@ def word1(name, stk, env, ctx):
             ctx.soft(name)
             return []
         r = apply_closure(v, stk[:-1], ctx)
+        if not r.ordered:
+            ctx.word_unordered = True
         return [s for s, _ in r.items]
     if name in CMP_WORDS:
         need(stk, 2)
